@@ -13,6 +13,9 @@ import (
 	"strings"
 
 	"github.com/anz-bank/sysl/pkg/arrai/relmod"
+	"github.com/anz-bank/sysl/pkg/arrai/transform"
+	"github.com/anz-bank/sysl/pkg/sysl"
+	"github.com/arr-ai/arrai/rel"
 )
 
 type rStmt struct {
@@ -77,6 +80,9 @@ type rModel struct {
 
 var rPrims = []struct{ sysl, rel string }{{"int", "INT"}, {"string", "STRING"}, {"bool", "BOOL"}, {"date", "DATE"}, {"float", "FLOAT"}, {"decimal", "DECIMAL"}}
 
+// c17Unreadable: the model being generated may contain return payloads outside the payload grammar (one model in five)
+var c17Unreadable bool
+
 func genRStmts(r *Rand, depth, n int, apps []string, self string) []rStmt {
 	var out []rStmt
 	for i := 0; i < n; i++ {
@@ -92,7 +98,13 @@ func genRStmts(r *Rand, depth, n int, apps []string, self string) []rStmt {
 			pp := Pick(r, []struct{ src, ty string }{
 				{"ok <: string", "prim:string"}, {"error <: Problem", "ref:" + self + ".Problem"},
 				{"ok <: sequence of Thing", "seq(ref:" + self + ".Thing)"}, {"ok <: set of Thing", "set(ref:" + self + ".Thing)"},
-				{"ok <: Ledger.Entry", "ref:Ledger.Entry"}, {"ok", "none"}})
+				{"ok <: Ledger.Entry", "ref:Ledger.Entry"}, {"ok", "none"},
+				// payloads the relational model's own payload grammar does not read: the module is either
+				// refused, or it still has one row for every statement
+			})
+			if c17Unreadable && r.Chance(1, 4) {
+				pp = Pick(r, []struct{ src, ty string }{{"ok <: int64", "UNPARSEABLE"}, {"ok <: boolean", "UNPARSEABLE"}, {"ok <: float64", "UNPARSEABLE"}})
+			}
 			st := strings.TrimSpace(strings.Split(pp.src, "<:")[0])
 			out = append(out, rStmt{K: "leaf", D: "ret:" + st + ":" + pp.ty, src: "return " + pp.src})
 		case k == 5:
@@ -177,6 +189,7 @@ func normBody(ss []rStmt) []rStmt {
 }
 
 func genRModel(r *Rand) *rModel {
+	c17Unreadable = r.Chance(1, 5)
 	m := &rModel{}
 	appNames := []string{"Shop", "Ns :: Billing", "Ledger"}
 	n := 1 + r.Intn(3)
@@ -520,7 +533,7 @@ func init() { runners["C17"] = runC17 }
 
 func runC17(res *Result, tier string, rnd *Rand, replay string) {
 	res.Rule = "generated specifications: 1..3 applications (one namespaced), tuple/table/enum/alias types with primitive, optional, set/sequence and reference fields, tags and string / array / nested-array annotations on applications, types, fields and endpoints, simple endpoints with parameters, a REST endpoint with path and query parameters, statement trees to depth 6 over action/call/typed return/placeholder/if/for each/while/group/one of with up to 4 siblings per level; non-trivial = some statement at depth >= 4 has a sibling; distinct by text"
-	n := 70
+	n := 110
 	if tier == "thorough" {
 		n = 3000
 	}
@@ -542,6 +555,7 @@ func runC17(res *Result, tier string, rnd *Rand, replay string) {
 	}
 	var all []obs
 	var reqs []any
+	var accepted []*sysl.Module
 	for _, m := range models {
 		m := m
 		mod, err := compileFiles(map[string]string{"main.sysl": m.Text}, "main.sysl")
@@ -585,9 +599,11 @@ func runC17(res *Result, tier string, rnd *Rand, replay string) {
 			continue
 		}
 		all = append(all, obs{m, rows})
+		accepted = append(accepted, mod)
 		reqs = append(reqs, map[string]any{"op": "relmod.normalize", "apps": m.Apps})
 		res.Eval(m.Text, strings.Contains(m.Text, "                        ")) // depth >= 4
 	}
+	c17TransformInput(res, accepted)
 	reps, err := RunOracleChunks(reqs, 8)
 	if err != nil {
 		res.Disagree(Disagreement{What: "oracle failed: " + err.Error()})
@@ -605,6 +621,25 @@ func runC17(res *Result, tier string, rnd *Rand, replay string) {
 			}
 		}
 		want := sortRows(mrows)
+		if strings.Contains(o.m.Text, "<: int64") || strings.Contains(o.m.Text, "<: boolean") || strings.Contains(o.m.Text, "<: float64") {
+			// accepted although a payload is outside the payload grammar: the statements must all be there
+			// (what is recorded for the payload itself is left open)
+			res.Count("accepted-with-unreadable-payload")
+			pos := func(rows []string) []string {
+				var out []string
+				for _, r := range rows {
+					if strings.HasPrefix(r, "stmt\t") {
+						out = append(out, r[:strings.LastIndex(r, "|")])
+					}
+				}
+				sort.Strings(out)
+				return out
+			}
+			if w, g := pos(want), pos(o.rows); strings.Join(w, "\n") != strings.Join(g, "\n") {
+				res.Violate(Violation{Sig: "statement-rows-missing-after-unreadable-payload", What: "the module was accepted but does not have one statement row per statement", Input: o.m, Got: g, Want: w})
+			}
+			continue
+		}
 		if strings.Join(want, "\n") != strings.Join(o.rows, "\n") {
 			// first differing rows
 			var onlyM, onlyI []string
@@ -642,6 +677,64 @@ func runC17(res *Result, tier string, rnd *Rand, replay string) {
 		}
 		if i%(len(all)/4+1) == 0 {
 			res.Sample(map[string]any{"rows": len(o.rows), "first": o.rows[:min(5, len(o.rows))]})
+		}
+	}
+}
+
+// c17TransformInput: what a transform script is handed for several modules at once (`sysl transform a.sysl b.sysl`):
+// models(i) must be the image of module i, i.e. what it is when module i is handed over alone.
+func c17TransformInput(res *Result, mods []*sysl.Module) {
+	summary := func(i int) string {
+		return fmt.Sprintf(`\input
+		let m = input.models(%d);
+		let j = \xs //seq.join(',', xs orderby .);
+		$`+"`apps=${j(m.rel.app => //seq.join(' :: ', .appName))} types=${j(m.rel.type => //seq.join(' :: ', .appName) ++ '.' ++ .typeName)} "+
+			"eps=${j(m.rel.ep => .epName)} stmts=${m.rel.stmt count} fields=${m.rel.field count}`", i)
+	}
+	eval := func(input rel.Tuple, i int) (out string, err error) {
+		defer func() {
+			if x := recover(); x != nil {
+				err = fmt.Errorf("panic: %v", x)
+			}
+		}()
+		v, err := transform.EvalWithParam([]byte(summary(i)), "census.arrai", input)
+		if err != nil {
+			return "", err
+		}
+		return v.String(), nil
+	}
+	for g := 0; g+2 < len(mods) && g < 36; g += 3 {
+		group := mods[g : g+3]
+		paths := []string{"a.sysl", "b.sysl", "c.sysl"}
+		var alone []string
+		for i, m := range group {
+			in1, err := transform.BuildTransformInput([]*sysl.Module{m}, paths[i:i+1])
+			if err != nil {
+				alone = append(alone, "error: "+firstLine(err.Error()))
+				continue
+			}
+			sm, err := eval(in1, 0)
+			if err != nil {
+				res.Note("census script failed: %v", err)
+				return
+			}
+			alone = append(alone, sm)
+		}
+		for round := 0; round < 3; round++ {
+			in3, err := transform.BuildTransformInput(group, paths)
+			if err != nil {
+				res.Count("transform-input-refused")
+				break
+			}
+			res.Count("transform-input-groups")
+			for i := range group {
+				sm, err := eval(in3, i)
+				if err != nil || sm != alone[i] {
+					res.Violate(Violation{Sig: "transform-input-model-of-another-module", What: fmt.Sprintf("models(%d) of a transform input built from three modules is not the image of module %d", i, i),
+						Input: map[string]any{"group_start": g, "index": i}, Got: sm, Want: alone[i]})
+					return
+				}
+			}
 		}
 	}
 }
